@@ -269,6 +269,17 @@ func c01Scenarios() []schedScenario {
 			h.markUncertain(ins)
 			return []concOp{h.prepMelt(q1, ins), h.prepMelt(q2, ins)}
 		}},
+		{"melt(pending)||melt(other quote, same inputs)", []int{9, 9}, func(h *Hist) []concOp {
+			// the first melt's payment stays in flight: whatever the second, refused one does must leave the lock alone
+			h.fundAmount(64)
+			q1 := h.OpMeltQuote(mode{}, 20000, nil, 0, true, true, nil)
+			q2 := h.OpMeltQuote(mode{}, 21000, nil, 0, true, true, nil)
+			h.ScriptPay(q1, 2, 0)
+			h.ScriptPay(q2, 2, 0)
+			ins := h.honestIns(1)
+			h.markUncertain(ins)
+			return []concOp{h.prepMelt(q1, ins), h.prepMelt(q2, ins)}
+		}},
 		{"melt(pending)||swap||poll", []int{9, 5, 6}, func(h *Hist) []concOp {
 			h.fundAmount(64)
 			q := h.OpMeltQuote(mode{}, 20000, nil, 0, true, true, nil)
